@@ -19,6 +19,9 @@ from . import common
 def _key_for_shape(case):
     prog = case.get("program", {})
     tags = prog.get("tags", [])
+    for t in tags:
+        if t.startswith("key:"):
+            return "shape-mismatch:" + t[4:]
     if case.get("annotated_record_order") or "permuted-record-fields" in tags:
         return "shape-mismatch:permuted-record-fields"
     if "imports-io-module" in tags and "run_io=1" in case.get("settings", "") and "IO" in str(case.get("type", "")):
